@@ -564,7 +564,7 @@ pub fn prop() -> Prop {
         assumptions: vec![
             "independent Ethernet/ARP/IPv4/IPv6/UDP/TCP/ICMP/NDISC codecs in vkit::indep, 802.15.4/6LoWPAN codec in vcheck/src/c20_lowpan.rs, DHCP/DNS/RA/MLD/IGMP builders in vcheck/src/c03_ctl.rs",
             "a panic counts when vkit::runner attributes it to /repo/src (raised there, or in a library with a smoltcp frame innermost on the stack)",
-            "hang: a single Interface::poll taking more than 10 s of wall-clock time (watchdog thread writes the tape and exits 1); non-termination of the egress loop: more than 50 000 frames handled in one poll while no socket holds more than 2 KiB",
+            "hang: a single Interface::poll consuming more than 10 s of CPU time without returning (watchdog thread reads the thread's CPU clock, writes the tape and exits 1; a stall without CPU consumption is exit 2, never a violation); non-termination of the egress loop: more than 50 000 frames handled in one poll while no socket holds more than 2 KiB",
             "liveness probe: fresh on-link neighbour introduces itself (ARP request / NS with SLLAO, which fill the neighbour cache when the target is an own address) and sends an 8-octet ICMP echo request to the static IPv4 address or the link-local IPv6 address in the same poll; the reply fits one frame, needs no discovery, no fragmentation buffer and no transmit budget (it uses the token paired with the received frame); neither address can be removed by anything received (DHCP events are not applied; SLAAC refuses link-local prefixes); the global IPv6 address is deliberately not probed because an RA for its prefix may expire it",
             "API misuse kept out: no multicast joins and no raw-socket sends on 802.15.4, SLAAC only with a link-local address and a hardware address, no sends to unspecified destinations",
         ],
